@@ -340,7 +340,7 @@ class WorkflowRecovery:
                                 task_type=stage.type,
                             )
                         )
-                elif not_started_tasks and stage.start_time is not None:
+                elif not_started_tasks and stage.start_time is not None and not stage.context.get("_plan_pending"):
                     first_task = not_started_tasks[0]
                     # Mirror the running-task guard: skip if a message for this
                     # task is already queued, so a recovery sweep overlapping
